@@ -46,6 +46,13 @@ func (s *Status) UnmarshalText(b []byte) error {
 	if len(parts) != 3 {
 		return fmt.Errorf("webdav: invalid HTTP status %q: expected 3 fields", s)
 	}
+	if _, _, ok := http.ParseHTTPVersion(parts[0]); !ok {
+		return fmt.Errorf("webdav: invalid HTTP status %q: malformed HTTP version", b)
+	}
+	// strconv.Atoi alone would accept a sign and any number of digits
+	if len(parts[1]) != 3 || strings.Trim(parts[1], "0123456789") != "" {
+		return fmt.Errorf("webdav: invalid HTTP status %q: malformed status code", b)
+	}
 	code, err := strconv.Atoi(parts[1])
 	if err != nil {
 		return fmt.Errorf("webdav: invalid HTTP status %q: failed to parse code: %v", s, err)
